@@ -165,6 +165,20 @@ CHECKS.update({
         design='DESIGN.md §4 C08', engine='worlds+refmodel'),
 })
 
+CHECKS.update({
+    'C09': dict(
+        technique='exhaustive enumeration of a bounded family of config trees x namespace shapes x media x context shapes on the real Config/Context/Chain vs an independent precedence evaluator; aliasing probes',
+        text='Three-level config trees (root -> used -> used-by-used) with every combination of plain / `as ns` mounting, JSON / YAML / multi-config-part / inline media, parameters that are '
+             'required, defaulted, renamed in the config, typed, and named identically in tasks of different configs, crossed with up to 17 context shapes (dict, JSON file, YAML file, Context '
+             'object, lists of two and three, `uses` and `uses .. as` inside contexts, for_namespaces for the exact, the parent and a foreign namespace, global + exact entries, mutable values). '
+             'Special cases: missing required value (also with a context that only addresses the parent namespace), wrong dtypes, values that must not travel up or down the uses tree, two '
+             'configs declaring one task in one namespace in both `uses` orders, one file mounted twice and nested twice with per-namespace values. Oracle: every task\'s parameter values == '
+             'the reference precedence; deliberate errors for invalid configurations; the caller\'s context data unchanged; no mutable container shared between configs or with the context; '
+             'polluting one chain\'s config values does not reach a second chain built from the same context.',
+        note='Reference precedence in tcv/refmodel.py (flatten_context, effective_values). A context and the contexts it uses defining the same key is excluded (precedence unspecified).',
+        design='DESIGN.md §4 C09', engine='worlds+refmodel'),
+})
+
 PENDING_REASON = 'check not built yet in this round (planned per DESIGN.md §4; technique applies)'
 
 
